@@ -430,6 +430,40 @@ func (g *commonGen) template(w *World, name string, b int) []Step {
 		}
 		out = append(out, Step{Kind: "logout", B: b}, Step{Kind: "probe", B: b, Str: map[string]string{"path": "/probe/mw/" + []string{"0", "1"}[g.r.Intn(2)] + "/0/0/after"}})
 		return out
+	case "oauth_cross":
+		// start in one browser, deliver the callback in another (and then in the right one)
+		ob := (b + 1) % len(w.Browsers)
+		prov := c.Providers[g.r.Intn(len(c.Providers))]
+		start := Step{Kind: "oauth2_start", B: b, Str: map[string]string{"provider": prov}}
+		cb := func(br int) Step {
+			return Step{Kind: "oauth2_callback", B: br, A: g.r.Intn(3), Sec: &SecretRef{Kind: "state", A: -1, Idx: -1}, Str: map[string]string{"provider": prov, "code": "fresh"}}
+		}
+		out := []Step{start}
+		if g.r.Bool() {
+			out = append(out, Step{Kind: "oauth2_start", B: ob, Str: map[string]string{"provider": prov}})
+		}
+		out = append(out, cb(ob), cb(b), Step{Kind: "replay", B: b})
+		return out
+	case "twofa_redir":
+		// 2FA login carrying a return target through both steps
+		for i := range w.Accts {
+			if w.KB.TOTPSecret[i] != "" || w.KB.SMSNumber[i] != "" {
+				a = i
+			}
+		}
+		first := Step{Kind: "login", B: b, A: a, Sec: pw(a)}
+		g.redir(&first)
+		out := []Step{first}
+		if a < len(w.Accts) && w.KB.TOTPSecret[a] != "" && c.hasSetup("totp") {
+			st := Step{Kind: "totp_validate", B: b, A: a, Sec: &SecretRef{Kind: "totp", A: a}}
+			g.redir(&st)
+			out = append(out, st)
+		} else if c.hasSetup("sms") {
+			st := Step{Kind: "sms_validate", B: b, A: a, Sec: &SecretRef{Kind: "sms", A: -1, Idx: -1}}
+			g.redir(&st)
+			out = append(out, st)
+		}
+		return out
 	case "twofa_login":
 		// primary credential then the right second factor
 		out := []Step{{Kind: "login", B: b, A: a, Sec: pw(a)}}
